@@ -57,7 +57,7 @@ func (m *Mutex) Unlock() {
 		m.real.Unlock()
 		return
 	}
-	s.Point("Mutex.Unlock")
+	s.UnlockPoint("Mutex.Unlock")
 	if !m.locked {
 		panic("sync: unlock of unlocked mutex")
 	}
@@ -91,7 +91,7 @@ func (m *RWMutex) Unlock() {
 		m.real.Unlock()
 		return
 	}
-	s.Point("RWMutex.Unlock")
+	s.UnlockPoint("RWMutex.Unlock")
 	if !m.writer {
 		panic("sync: Unlock of unlocked RWMutex")
 	}
@@ -116,7 +116,7 @@ func (m *RWMutex) RUnlock() {
 		m.real.RUnlock()
 		return
 	}
-	s.Point("RWMutex.RUnlock")
+	s.UnlockPoint("RWMutex.RUnlock")
 	if m.readers <= 0 {
 		panic("sync: RUnlock of unlocked RWMutex")
 	}
